@@ -33,6 +33,11 @@ def cases(tier, seed):
         yield {"variant": v, "block": b, "indices": i, "order": n, "singles": False, "kind": "isr"}
     yield {"variant": "pp", "block": "ph,ph", "indices": "ia,jb", "order": 2, "singles": True, "kind": "isr"}
     yield {"variant": "pp", "block": "ph,ph", "indices": "ia,jb", "order": 2, "singles": False, "kind": "precursor-sym"}
+    # ground state with first order singles: the coupling between different
+    # excitation classes starts at first order
+    for v, b, i, n in [("pp", "ph,pphh", "ia,jkbc", 1), ("pp", "pphh,ph", "ijab,kc", 1),
+                       ("pp", "ph,pphh", "ia,jkbc", 2), ("ip", "h,phh", "i,jka", 1), ("ip", "h,phh", "i,jka", 2)]:
+        yield {"variant": v, "block": b, "indices": i, "order": n, "singles": True, "kind": "isr"}
     if tier == "thorough":
         for v, b, i, n in [("pp", "pphh,pphh", "ijab,klcd", 2), ("pp", "ph,ph", "ia,jb", 3),
                            ("ea", "p,pph", "a,ibc", 2), ("dip", "hh,hh", "ij,kl", 2),
@@ -95,6 +100,6 @@ CHECKS = {
     "overlap_isr.orthonormal": {
         "function": "adcgen.intermediate_states:IntermediateStates.precursor",
         "cases": cases, "check": check,
-        "bound": "pp/ip/ea (thorough: dip) blocks singles/doubles, orders 0..2 (3 for ph,ph in thorough), random amplitudes, 2 occ + 2 virt spin orbitals, all target assignments",
+        "bound": "pp/ip/ea (thorough: dip) blocks singles/doubles, orders 0..2 (3 for ph,ph in thorough), ground states without and (ph/pphh, h/phh blocks, orders 1-2) with first order singles, random amplitudes, 2 occ + 2 virt spin orbitals, all target assignments",
     },
 }
